@@ -137,6 +137,11 @@ theorem encInsn_within {isWide : Bool} {lbl : Nat → Option Nat} {p k : Nat} {i
           (by simp [swLabel_len, swPairs_len, i32b, u32b]; omega)
       · exact within_mono (swPairs_within lbl p k ps (p + 1 + padLen p + 8)) (by omega)
           (by simp [swLabel_len, swPairs_len, i32b, u32b]; omega)
+  | invokeinterface idx desc =>
+    simp only [encInsn] at h
+    split at h
+    · cases h
+    · cases h; exact within_nil _ _
   | _ => simp only [encInsn] at h; cases h; exact within_nil _ _
 
 end CodeWrite
